@@ -5,7 +5,10 @@ import Driver.C08
 import Driver.C09
 import Driver.C11
 import Driver.C13
+import Driver.C15
+import Driver.C17
 import Driver.C18
+import Driver.C20
 
 namespace Driver
 def dispatch (p : String) (rest : List String) : String :=
@@ -17,6 +20,9 @@ def dispatch (p : String) (rest : List String) : String :=
   | "C09" => C09.handle rest
   | "C11" => C11.handle rest
   | "C13" => C13.handle rest
+  | "C15" => C15.handle rest
+  | "C17" => C17.handle rest
   | "C18" => C18.handle rest
+  | "C20" => C20.handle rest
   | _ => "bad unknown-property " ++ p
 end Driver
